@@ -393,6 +393,16 @@ impl Bitstr {
     }
 
     fn append_bits_mut(mut self, tail: &Bitstr) -> Bitstr {
+        // a uniquely owned buffer may be longer than the value and hold stale bits
+        // behind range.end (slice of a dropped parent): forget them before writing
+        let end = self.range.end;
+        let data = self.data_mut();
+        data.truncate(upper_bound_index(end));
+        if end % 8 > 0 {
+            if let Some(last) = data.last_mut() {
+                *last &= !(0xffu8 >> (end % 8));
+            }
+        }
         if self.is_u8_slice() && tail.is_u8_slice() {
             self.data_mut().extend_from_slice(tail.slice().unwrap());
             self.range.end = self.range.end + tail.len();
